@@ -1,5 +1,7 @@
 import Juniper.Driver.Basic
 import Juniper.Driver.C04
+import Juniper.Driver.C13
+import Juniper.Driver.C14
 /-! `driver <model>`: runs one executable model behind the line protocol. Core-only (no Mathlib).
 Registration: one `import` line above and one `[("name", handler)],` line below per model
 (this file is merged with git's union driver, so keep one entry per line). -/
@@ -7,6 +9,9 @@ open Juniper.Driver
 
 def handlers : List (String × Handler) := List.flatten [
   [("deque", Juniper.Driver.C04.handler)],
+  [("pardo", Juniper.Driver.C13.handler)],
+  [("parstream", Juniper.Driver.C14.S.handler)],
+  [("pariter", Juniper.Driver.C14.I.handler)],
   []]
 
 def main (args : List String) : IO UInt32 := do
